@@ -108,14 +108,13 @@ def run(ctx):
                 "functions succeeded")
     d = ctx.spec_dir(*SPECS)
     tier = "Quick" if q else "Full"
-    emitted = []
-    # ---- leg M: the composed design satisfies the monitor on every machine / history of the scope
-    for fam in ("All", "Hist", "Tight"):
-        cf = os.path.join(ctx.work, "xb_cases_%s.ndjson" % fam)
-        ctx.model_check(d, "MCBoot", "MCBoot%s%s" % (fam, tier), env={"CASES": cf}, workers=6 if q else 16, timeout=300 if q else 1500)
-        emitted.append(cf)
-    k = 3 if q else len(BUGS)
-    order = BUGS[(ctx.seed * 3) % len(BUGS):] + BUGS[:(ctx.seed * 3) % len(BUGS)]
+    # ---- leg M: the composed design satisfies the monitor on every machine / history of the scope (one run; the
+    # machines carry their own operation bound); cases are emitted on the way
+    cf = os.path.join(ctx.work, "xb_cases.ndjson")
+    ctx.model_check(d, "MCBoot", "MCBoot" + tier, env={"CASES": cf}, workers=4 if q else 16, timeout=300 if q else 1500)
+    emitted = [cf]
+    k = 2 if q else len(BUGS)
+    order = BUGS[(ctx.seed * 2) % len(BUGS):] + BUGS[:(ctx.seed * 2) % len(BUGS)]
     for b in order[:k]:
         ctx.expect_model_violation(d, "MCBoot", "MCBootBug_" + b, workers=2, timeout=300)
     # ---- leg G: replay the emitted machines / histories on the real boot path
@@ -133,7 +132,7 @@ def run(ctx):
         for p in (trg, trt):
             with open(p) as g:
                 f.write(g.read())
-    acc, nev, mism = ctx.validate_traces("BootTrace", "BootTrace", tra, SPECS, name="V-G+T", parallel=5 if q else 16, timeout=1500)
+    acc, nev, mism = ctx.validate_traces("BootTrace", "BootTrace", tra, SPECS, name="V-G+T", parallel=3 if q else 16, timeout=1500)
     record(ctx, "G-cases", trg)
     record(ctx, "T-random", trt)
     report(ctx, mism)
